@@ -126,6 +126,62 @@ theorem time_window_exact (c : TCfg) (ms : List Msg) (hp : 0 < c.period) (he : 0
       exact ⟨Int.le_refl _, by simpa [nondecreasing] using hmono⟩
     exact (run_inv c m.t hp he (m :: ms) [] _ hinit hm).2
 
+/-- Readable consequences of `time_window_exact`, clause by clause. For every step `k` of every run:
+(1) no batch ⇒ the message is earlier than the due time; (2) a batch ⇒ the message has reached the due time,
+the end time is the due time (every = 0: the message time); (3) NOTHING OLDER OR NEWER: every point of the batch
+lies in [T - period, T) (every = 0: (T - period, T]); (4) NOTHING MISSING: every point received so far (the
+triggering one included) that lies in that interval is in the batch; (5) arrival order: the batch is a sublist
+of the received points. -/
+theorem window_clauses (c : TCfg) (ms : List Msg) (hp : 0 < c.period) (he : 0 ≤ c.every)
+    (hmono : nondecreasing (ms.map Msg.t) = true)
+    (k : Nat) (m0 m : Msg) (o : Option Batch) (h0 : ms[0]? = some m0)
+    (hk : (ms.zip (runTime c ms))[k]? = some (m, o)) :
+    let tr := ms.zip (runTime c ms)
+    let d := due c m0.t (tr.take k)
+    let hist := received ((tr.take k).map (·.1) ++ [m])
+    match o with
+    | none => m.t < d
+    | some b =>
+      d ≤ m.t ∧ b.tmax = (if c.every = 0 then m.t else d) ∧
+      (∀ q ∈ b.pts, if c.every = 0 then b.tmax - c.period < q.t ∧ q.t ≤ b.tmax
+                    else b.tmax - c.period ≤ q.t ∧ q.t < b.tmax) ∧
+      (∀ q ∈ hist, (if c.every = 0 then b.tmax - c.period < q.t ∧ q.t ≤ b.tmax
+                    else b.tmax - c.period ≤ q.t ∧ q.t < b.tmax) → q ∈ b.pts) ∧
+      b.pts.Sublist hist := by
+  have hok := time_window_exact c ms hp he hmono
+  have h00 : (∃ o0, (ms.zip (runTime c ms))[0]? = some (m0, o0)) ∨ ms = [] := by
+    cases ms with
+    | nil => right; rfl
+    | cons a ms =>
+      left
+      simp at h0; subst h0
+      exact ⟨_, zip_run_head c a ms⟩
+  rcases h00 with ⟨o0, h00⟩ | h00
+  · have hs := hok k m0 o0 m o h00 hk
+    cases o with
+    | none => exact sv_none_inv _ _ _ _ hs
+    | some b =>
+      obtain ⟨h1, h2, h3⟩ := sv_some_inv _ _ _ _ _ hs
+      refine ⟨by omega, h2, ?_, ?_, ?_⟩
+      · intro q hq
+        rw [h3] at hq
+        unfold specContent at hq
+        by_cases hev : c.every = 0
+        · simp only [hev, if_true, List.mem_filter, Bool.and_eq_true, decide_eq_true_eq] at hq ⊢
+          exact hq.2
+        · simp only [hev, if_false, List.mem_filter, Bool.and_eq_true, decide_eq_true_eq] at hq ⊢
+          exact hq.2
+      · intro q hq hin
+        rw [h3]
+        unfold specContent
+        by_cases hev : c.every = 0
+        · simp only [hev, if_true, List.mem_filter, Bool.and_eq_true, decide_eq_true_eq] at hin ⊢
+          exact ⟨hq, hin⟩
+        · simp only [hev, if_false, List.mem_filter, Bool.and_eq_true, decide_eq_true_eq] at hin ⊢
+          exact ⟨hq, hin⟩
+      · rw [h3]; unfold specContent; split <;> exact List.filter_sublist
+  · subst h00; simp at h0
+
 /-- The executable oracle that the driver evaluates on the implementation's observed output decides exactly
 the property (so a SPECFAIL of the driver is a violation of `TimeWindowOK`, and vice versa). -/
 theorem oracle_decides_property (c : TCfg) (tr : Trace) : TimeWindowOK c tr ↔ traceViolation c tr = none :=
@@ -201,6 +257,28 @@ theorem count_window_exact (period every : Nat) (fill : Bool) (ps : List Pt) (hP
     countViolationFrom period every fill [] (ps.zip (runCount period every fill ps)) = none :=
   count_run period every fill hP hE ps [] _ (cinv_init period every fill hP hE)
 
+/-- The same, step by step: what the k-th point (counted from 0) emits is exactly what the spec requires after
+the first k+1 points. -/
+theorem count_window_steps (period every : Nat) (fill : Bool) (ps : List Pt) (hP : 1 ≤ period) (hE : 1 ≤ every)
+    (k : Nat) (p : Pt) (o : Option Batch) (hk : (ps.zip (runCount period every fill ps))[k]? = some (p, o)) :
+    o = specCountOut period every fill (ps.take (k + 1)) := by
+  have h := cvf_none_steps period every fill _ [] (count_window_exact period every fill ps hP hE) k p o hk
+  have hlen : ∀ (w : CW) (l : List Pt), (CW.runFrom w l).length = l.length := by
+    intro w l; induction l generalizing w with
+    | nil => rfl
+    | cons a l ih => simp [CW.runFrom, ih]
+  have hfst : (ps.zip (runCount period every fill ps)).map (·.1) = ps := by
+    rw [List.map_fst_zip (by unfold runCount; rw [hlen]; exact Nat.le_refl _)]
+  have hp : ps[k]? = some p := by
+    have := congrArg (fun l => l[k]?) hfst
+    simp only [List.getElem?_map, hk, Option.map_some] at this
+    exact this.symm
+  rw [h]
+  congr 1
+  simp only [List.nil_append]
+  rw [List.map_take, hfst, List.take_succ, hp]
+  rfl
+
 /-- The ring of the count window returns the last `min k period` points for every index phase. -/
 theorem count_ring_points {P : Nat} {hist : List Pt} {w : CW} (hP : 1 ≤ P) (h : CRing P hist w) :
     w.points = lastN (min hist.length P) hist := cring_points hP h
@@ -210,8 +288,10 @@ theorem count_ring_points {P : Nat} {hist : List Pt} {w : CW} (hP : 1 ≤ P) (h 
 /-- a wrapped, partly stale ring satisfies `Ring`; purging it drops the expired point and keeps order -/
 example :
     let b : Buf := { window := [⟨30, 3⟩, ⟨5, 0⟩, ⟨10, 1⟩, ⟨20, 2⟩], cap := 4, start := 2, stop := 1, size := 3 }
-    Ring b [⟨10, 1⟩, ⟨20, 2⟩, ⟨30, 3⟩] [⟨5, 0⟩] ∧ (b.purge 15 true).points = [⟨20, 2⟩, ⟨30, 3⟩] := by
-  refine ⟨Ring.wr [⟨10, 1⟩, ⟨20, 2⟩] [⟨5, 0⟩] [⟨30, 3⟩] rfl rfl rfl rfl rfl rfl (by simp) (by simp) rfl rfl, by decide⟩
+    Ring b [⟨10, 1⟩, ⟨20, 2⟩, ⟨30, 3⟩] [⟨5, 0⟩] ∧ (∀ q ∈ [(⟨5, 0⟩ : Pt)], includes 15 true q.t = false) ∧
+    SortedT [⟨10, 1⟩, ⟨20, 2⟩, ⟨30, 3⟩] ∧ (b.purge 15 true).points = [⟨20, 2⟩, ⟨30, 3⟩] := by
+  refine ⟨Ring.wr [⟨10, 1⟩, ⟨20, 2⟩] [⟨5, 0⟩] [⟨30, 3⟩] rfl rfl rfl rfl rfl rfl (by simp) (by simp) rfl rfl,
+    by decide, by simp [SortedT], by decide⟩
 
 /-- a history that meets the hypotheses of `time_window_exact` and emits non-empty, overlapping windows,
 one of them after the ring drained and wrapped (the formerly defective pattern) -/
